@@ -185,6 +185,10 @@ func (m *Manager) trySyncNextBlock(ctx context.Context, daHeight uint64) error {
 		// Record sync metrics
 		m.recordSyncMetrics("block_applied")
 
+		// the blobs of this block may have been seen on the DA layer before the block could be applied:
+		// the inclusion check ran then and found nothing to advance to; wake it again now
+		m.sendNonBlockingSignalToDAIncluderCh()
+
 		if daHeight > newState.DAHeight {
 			newState.DAHeight = daHeight
 		}
